@@ -171,6 +171,62 @@ func mgLoneEmptyBinary(rng *rand.Rand, p *reg.Pkg, g ygot.GoStruct) bool {
 	return true
 }
 
+// mgLoneZeroUnion makes one container hold nothing but a union leaf whose value is the zero value
+// of its member type (0, "", false): a set leaf, whatever its value. Reports whether a container
+// with a union leaf was found.
+func mgLoneZeroUnion(rng *rand.Rand, p *reg.Pkg, g ygot.GoStruct) bool {
+	type cand struct {
+		parent reflect.Value
+		idx    int
+	}
+	var cands []cand
+	unionField := func(st reflect.Type) int {
+		for i := 0; i < st.NumField(); i++ {
+			f := st.Field(i)
+			if _, ok := f.Tag.Lookup("path"); ok && f.Type.Kind() == reflect.Interface {
+				if _, has := reflect.PtrTo(st).MethodByName("To_" + f.Type.Name()); has {
+					return i
+				}
+			}
+		}
+		return -1
+	}
+	scan := func(sp reflect.Value) {
+		st := sp.Elem().Type()
+		for i := 0; i < st.NumField(); i++ {
+			ft := st.Field(i).Type
+			if ft.Kind() == reflect.Ptr && ft.Elem().Kind() == reflect.Struct && !isOrderedMapType(ft) && unionField(ft.Elem()) >= 0 {
+				cands = append(cands, cand{sp, i})
+			}
+		}
+	}
+	scan(reflect.ValueOf(g))
+	for _, s := range mgSlots(p, g) {
+		if s.kind == "cont" && !s.inUnk && !s.inOrd {
+			scan(s.field())
+		}
+	}
+	if len(cands) == 0 {
+		return false
+	}
+	cd := pick(rng, cands)
+	fv := cd.parent.Elem().Field(cd.idx)
+	c := reflect.New(fv.Type().Elem())
+	ui := unionField(c.Elem().Type())
+	to := c.MethodByName("To_" + c.Elem().Type().Field(ui).Type.Name())
+	zeros := []interface{}{"", false, int8(0), int16(0), int32(0), int64(0), uint8(0), uint16(0), uint32(0), uint64(0), float64(0)}
+	rng.Shuffle(len(zeros), func(i, j int) { zeros[i], zeros[j] = zeros[j], zeros[i] })
+	for _, z := range zeros {
+		out := to.Call([]reflect.Value{reflect.ValueOf(z)})
+		if out[1].IsNil() && !out[0].IsNil() {
+			c.Elem().Field(ui).Set(out[0])
+			fv.Set(c)
+			return true
+		}
+	}
+	return false
+}
+
 func mgPruneCase(p *reg.Pkg, seed int64, force string, id *int, tf *treeFile, sum *Summary, seen map[string]bool) {
 	rng := rand.New(rand.NewSource(seed))
 	in := mgMergeInput{Pkg: p.Name, Seed: seed, Force: force}
@@ -184,6 +240,9 @@ func mgPruneCase(p *reg.Pkg, seed int64, force string, id *int, tf *treeFile, su
 	}
 	if (rng.Intn(8) == 0 || force == "emptybin") && mgLoneEmptyBinary(rng, p, t) {
 		sum.count("directed", "container holding only an empty binary leaf")
+	}
+	if force == "zerounion" && mgLoneZeroUnion(rng, p, t) {
+		sum.count("directed", "container holding only a union leaf with a zero member value")
 	}
 	guard := "as-generated"
 	ordMode := rng.Intn(3)
@@ -324,6 +383,9 @@ func mgPruneStream(rng *rand.Rand, n int, tier string, out string) (*Summary, er
 			mgPruneCase(p, rp.Seed, rp.Force, &id, tf, sum, seen)
 		} else {
 			mgPruneCase(p, rng.Int63(), "emptybin", &id, tf, sum, seen)
+			for i := 0; i < 3; i++ {
+				mgPruneCase(p, rng.Int63(), "zerounion", &id, tf, sum, seen)
+			}
 			for i := 0; i < shares[name]; i++ {
 				mgPruneCase(p, rng.Int63(), "", &id, tf, sum, seen)
 			}
